@@ -161,6 +161,23 @@ func (st *c12State) class(s string) { st.res.Classes[s]++ }
 
 // caseOpening: one Step of a two-byte opening on a 64 KiB array with the log
 // monitor attached.
+// c12OpeningInput regenerates the input of opening case i (pure function of
+// seed and index): pre-state and instruction bytes.
+func c12OpeningInput(seed uint64, i int64) (z80.States, []uint8) {
+	r := mon.NewRng(mon.Hash(seed, uint64(i), 0xC12A))
+	op := uint16(i % 65536)
+	pre := RandStates(r)
+	if r.Intn(4) == 0 {
+		pre.PC = 0xfffc + uint16(r.Intn(4))
+	}
+	tail := c12Bytes(r, 6)
+	bs := append([]uint8{uint8(op >> 8), uint8(op)}, tail...)
+	if (i/65536)%4 == 3 {
+		bs = append([]uint8{[]uint8{0xdd, 0xfd}[(op>>8)&1], 0xcb, uint8(op >> 9), uint8(op)}, tail...)
+	}
+	return pre, bs
+}
+
 func (st *c12State) caseOpening(i int64) {
 	r := mon.NewRng(mon.Hash(st.seed, uint64(i), 0xC12A))
 	op := uint16(i % 65536)
@@ -724,7 +741,12 @@ func runC12(c *Ctx) {
 					if _, serr := os.Stat(out + ".stuck"); serr == nil {
 						kind = "a Step/Run neither returns nor touches the bus for 20 s, twice in a row on this input (fast pass and the per-case re-run)"
 					}
-					c.R.Violation("C12/worker-died", map[string]interface{}{"what": kind, "case_index": last, "shard": sh, "seed": c.Seed,
+					desc := map[string]interface{}{"kind": "config or run case (regenerate with the replay command)"}
+					if no, _, _ := c12Plan(c.Tier); last < no {
+						pre, bs := c12OpeningInput(uint64(c.Seed), last)
+						desc = map[string]interface{}{"kind": "opening", "bytes": HexBytes(bs), "pre": DumpState(&pre, false)}
+					}
+					c.R.Violation("C12/worker-died", map[string]interface{}{"what": kind, "case_index": last, "shard": sh, "seed": c.Seed, "input": desc,
 						"replay": fmt.Sprintf("vcheck -worker c12:%d:%s:%d:%d:%d:1:/tmp/out.json", c.Seed, c.Tier, sh, nshards, last), "output": tail})
 					from = last + nshards
 					continue
